@@ -62,7 +62,7 @@ impl Profile {
 			Profile::C01 => tier.pick(400, 6000),
 			Profile::C03 => tier.pick(300, 4000),
 			Profile::C04 => tier.pick(400, 6000),
-			Profile::C06 => tier.pick(6, 54),
+			Profile::C06 => tier.pick(14, 140),
 			Profile::C07 => tier.pick(400, 6000),
 			Profile::C08 => tier.pick(200, 3000),
 			Profile::C09 => tier.pick(12, 150),
